@@ -138,6 +138,29 @@ func applyQScript(q, partner string, script []QMut) string {
 	return strings.Join(toks, "")
 }
 
+// extraQueries cover syntax that the repo's query corpus hardly contains
+// (sources, declarations, parallel paths, lake operators, literals of every
+// type).  Whether they compile does not matter.
+var extraQueries = []string{
+	"from foo", "from foo@main", "from foo@main:objects", "from :pools", "from foo* | count()", "from /a.*/ | head 1", "from \"quoted pool\" | pass",
+	"from ( pool a => pass pool b => head 1 ) | merge x", "from ( file a.zson => count() get http://x/y => pass )",
+	"file a.json format json order x desc | head 1", "get http://localhost/x method \"POST\" headers {a:[\"b\"]} body \"z\" | pass",
+	"from foo | load bar@main author \"a\" message \"m\" meta \"x\"", "from HEAD", "from foo | delete where a==1",
+	"fork ( => count() => sum(a) => head 1 ) | merge this", "switch a ( case 1 => pass case 2 => head 1 default => count() )", "switch ( case a==1 => put b:=1 default => drop a )",
+	"over a with b=c => ( yield {a:this,b} | head 1 )", "over this, a.b => ( where this>1 )", "yield (over a | sum(this))",
+	"const PI=3.14 type port=uint16 func f(x,y): (x+y*PI) op g(a): ( yield f(a,1) ) g(this) | sort -r a,b nulls first",
+	"join on a=b c:=d", "anti join (file x.zson) on a=b", "left join on a=b x:=y | right join on c=d", "inner join (from p) on a.b=c[0]",
+	"summarize every(1h) count(), s:=sum(x) where y>1 by k:=lower(z), w with -limit 10", "count() by a | uniq -c | sample a | top 3 -flush a",
+	"put a:=1,b.c:=a+1 | cut a,b.c | drop b | rename d:=a | fuse | shape(this,<{a:int64}>) | explode a by int64 as x | merge a,b:desc | tail 2 | assert a>0 | debug f\"x{a}\" | output main",
+	"yield 1,1.5,-1e10,0x1F,\"s\",'s',true,null,1.2.3.4,::1,10.0.0.0/8,2020-01-01T00:00:00Z,1h2m3s,0xdeadbeef,<int64>,<{a:[string]}>,|[1,2]|,|{\"k\":1}|,[1,\"a\"],{a:1,...b,c:{}},error(\"x\"),%sym,f\"a{b}c\"",
+	"yield a[0],a[1:2],a[:-1],a.b.c,this[\"x y\"],a?.b,a ? b : c,a in b,not a,-a,!a,a*b/c%d+e-f,a<b and c<=d or e!=f,a::string,cast(a,<ip>),<foo=uint8>(1)",
+	"search foo bar* /re.*/ a==1 \"quoted\" | where grep(/x/, this) and a matches /y/ or s like \"%x\"",
+	"yield typeof(a),kind(a),nameof(a),is(<int64>),has(a.b),missing(a),len(a),quiet(a),coalesce(a,b),compare(a,b),regexp_replace(s,\"a\",\"b\"),map(|x| x+1, a)",
+	"type t={a:int64} yield <t>, <[t]>, <(t,string)>, <enum(a,b)>, <error(t)>, <|{t:t}|>",
+	"op a(): ( b() ) op b(): ( a() ) a()", "func f(x): ( f(x) ) yield f(1)", "const a = b const b = a yield a",
+	"select a, count(*) as c from t where a > 1 group by a having c > 1 order by a desc limit 10", "select * from a join b on a.x = b.y",
+}
+
 var fallbackQueries = []string{"count() by a | sort -r count", "where a==1 and b in [1,2] | put c:=a+1 | cut a,c", "over a => ( yield this ) | head 1",
 	"yield {a:1,b:[1,2],c:|{1:2}|,d:<int64>} | summarize collect(a) by typeof(b)", "fork (=> count() => sum(a)) | merge a", "const X=1 func f(x):(x+X) op o(y):(yield f(y)) o(1)"}
 
@@ -148,7 +171,11 @@ func genQuery(t *rapid.T) Case {
 	if len(pool) == 0 {
 		pool = fallbackQueries
 	}
-	c.Query = rapid.SampledFrom(pool).Draw(t, "query")
+	if rapid.IntRange(0, 3).Draw(t, "extra?") == 3 {
+		c.Query = rapid.SampledFrom(extraQueries).Draw(t, "extraquery")
+	} else {
+		c.Query = rapid.SampledFrom(pool).Draw(t, "query")
+	}
 	n := rapid.SampledFrom([]int{0, 1, 1, 1, 2, 2, 3, 4, 6}).Draw(t, "nmut")
 	ops := []string{"del", "del", "dup", "dup", "swap", "ins", "ins", "ins", "splice", "trunc", "subst", "subst", "subst", "subst"}
 	for i := 0; i < n; i++ {
